@@ -48,6 +48,9 @@ def run_case(cs, ctx):
     elif cs % 40 == 7:
         spec = sp.make_huge_id_spec(rng)      # three-digit project and lecturer ids
         ctx.cov('three_digit_ids')
+    elif cs % 400 == 11:
+        spec = sp.make_long_rank_spec(rng)    # more than 1000 distinct ranks in one list
+        ctx.cov('more_than_1000_ranks')
     text = sp.render(spec, rng=rng, second_side=True, noise=True)
     path = en.write_file(ctx.workdir, text)
     case.update({'spec': spec, 'file': text})
